@@ -1064,7 +1064,8 @@ pub fn similar_call(call: &EncCall, seed: u32) -> EncCall {
 }
 
 /// With probability 1/4 append, to the sender's history, an encode of a call
-/// similar to `call` (to the same destination or to one differing in one bit).
+/// similar to `call` (to the same destination or to one differing in one bit);
+/// with probability 1/128 the same call - or as many different variations of it - repeated 2-9 or 253-258 times.
 pub fn with_similar_predecessor(mut env: EncEnv, call: &EncCall, seed: u32) -> EncEnv {
     if seed & 3 == 0 {
         let dest = match (seed >> 2) & 3 {
@@ -1074,6 +1075,18 @@ pub fn with_similar_predecessor(mut env: EncEnv, call: &EncCall, seed: u32) -> E
             _ => env.dest ^ (1 << ((seed >> 4) & 7)),
         };
         env.hist.push(Op::Encode { call: similar_call(call, seed >> 7), dest });
+    }
+    // one case in 128: the very same call has already been made 2-9 or 253-258
+    // times on this context (counters, toggles, "first call only" behaviour)
+    if seed & 0x7F == 0x41 {
+        let n = if (seed >> 8) & 1 == 0 { 2 + (seed >> 9) % 8 } else { 253 + (seed >> 9) % 6 };
+        // ... or that many *different* calls of the same kind (each a variation of the
+        // call under test: other identifiers, other parameters)
+        let distinct = (seed >> 12) & 1 == 1;
+        for i in 0..n {
+            let c = if distinct { similar_call(call, (seed >> 7).wrapping_mul(0x9E37_79B1).wrapping_add(i.wrapping_mul(0x85EB_CA6B)) >> 3) } else { call.clone() };
+            env.hist.push(Op::Encode { call: c, dest: env.dest });
+        }
     }
     env
 }
